@@ -389,8 +389,52 @@ def timing_extra(ctx, facts):
         ctx.violation("timing", v)
 
 
+
+def make_simple_check(pid, suite, args_quick, args_thorough, what, assume, exhaustive=False):
+    def chk(ctx):
+        facts = prepare(ctx)
+        broken = None
+        if not facts["prop_ok"]:
+            broken = theorem_broken(ctx, facts, "Properties/%s.v no longer checks" % ctx.pid)
+        if not facts.get("harness_ok"):
+            ctx.violation("harness-build", {"what": "harness does not build against the current tree", "log": tail(facts.get("harness_log", ""))}, found_input=False)
+            return ctx.finish()
+        if not facts.get("ocaml_ok"):
+            broken = broken or {"what": "extracted model does not build", "log": tail(facts.get("ocaml_log", ""))}
+        rep, rows = run_suite_with_model(ctx, facts, suite, args_quick if ctx.tier == "quick" else args_thorough)
+        bad = 0
+        for g, cmd, impl, model in rows:
+            if impl != model:
+                bad += 1
+                if bad <= 4:
+                    ctx.violation("case", {"what": what, "case": cmd, "implementation": short(impl, 2000), "model": short(model, 2000)})
+        if rep:
+            ctx.cov["evaluations"] = len(rows)
+            ctx.cov["distinct_nontrivial"] = rep["distinct_nontrivial"]
+            ctx.cov["traces_validated_against_impl"] = len(rows)
+            ctx.cov["rule"] = rep["rule"]
+            ctx.cov["distribution"] = rep.get("distribution")
+            ctx.cov["samples"] += rep.get("samples", [])
+            ctx.cov["exhaustive"] = exhaustive
+            for v in rep["violations"][:4]:
+                ctx.violation(v.get("kind", "oracle"), v)
+        ctx.assumptions += assume
+        if broken and not ctx.violations:
+            ctx.violation("theorem", broken, found_input=False)
+        return ctx.finish()
+    return chk
+
+
 CHECKS = {"C18": check_C18, "C19": check_C19, "C02": check_C02, "C03": check_C03, "C13": check_C13,
           "C07": make_session_check("C07", 150, 3000), "C08": make_session_check("C08", 150, 3000),
           "C09": make_session_check("C09", 150, 3000), "C10": make_session_check("C10", 150, 3000),
-          "C15": make_session_check("C15", 100, 1500, timing_extra)}
+          "C15": make_session_check("C15", 100, 1500, timing_extra),
+          "C17": make_simple_check("C17", "accept", ["-len", "4"], ["-len", "6"],
+                                   "behaviour of Serve on this sequence of Accept results differs from the model of the accept loop (sleeps, served connections, result)",
+                                   ["Accept.v is a hand-written model of the accept loop of Server.Serve, tied to /repo by running every sequence over {T,C,P,S} up to the length bound against the real Serve (fault-injecting listener)",
+                                    "time.Sleep, the Temporary() classification of net.Error and the select on the done channel are modelled; sleeps are observed through Server.Log and bracketed by the wall clock"], exhaustive=True),
+          "C20": make_simple_check("C20", "discover", ["-sup", "2", "-offer", "3"], ["-sup", "3", "-offer", "4"],
+                                   "reply of the built-in Discover Versions handler (or its aliasing with the configuration) differs from the model",
+                                   ["Discover.v is a hand-written model of handleDiscoverVersions / Serve's defaulting with Go slices made explicit; tied to /repo by calling the real handler (through the verif build-tag hook) on every (supported, offer) pair up to the length bounds and inspecting the reply for shared memory",
+                                    "the Go runtime's append (in place iff capacity allows, fresh array otherwise) is modelled; the growth policy is abstracted"], exhaustive=True)}
 
